@@ -54,6 +54,8 @@ REG = {
                 text="Generated (P, neutral N(P)) pairs must compare clean in both orders; exploration only.", note=_T1),
     "C14": dict(engine="progfuzz", technique="property-based testing (metamorphic: same command under 4 environments - ASLR on/off, MALLOC_PERTURB_, arena count, cwd - must give byte-identical output)",
                 text="Six abidw/abidiff/abipkgdiff commands per generated pair, each run under four environment perturbations; byte equality of stdout and equal status; exploration only (only the perturbations listed are provoked).", note=_T1),
+    "C15": dict(engine="progfuzz", technique="property-based testing (differential against a compiled probe: sizeof / offsetof / bit-field scans / base-pointer conversions by the same compiler and flags vs the sizes and offsets in abidw's output)",
+                text="Generated C/C++ libraries incl. bit-fields, anonymous members, base classes, same-named TU-private types; every size and member/base/bit-field offset recorded in the ABIXML must equal what a probe program compiled with the same compiler prints; exploration only.", note=_T1),
     "C16": dict(engine="progfuzz", technique="property-based testing (structural walk of the generator's type model against the ABIXML type graph read with expat, guarded by the compiler's own DWARF parameter counts)",
                 text="Generated C/C++ libraries; every exported function's return type, parameter count, parameter types and variadic marker and every exported variable's type are matched against abidw's output (typedefs, qualifiers, pointers, references, arrays, function types, builtin spellings); only the two documented normalisations and compiler-level spelling freedoms are accepted; exploration only.", note=_T1),
     "C17": dict(engine="progfuzz", technique="property-based testing (Hypothesis libraries mixing -g and non -g translation units; oracle A: expat+readelf accounting of declarations vs symbols; oracle B: exactly-once placement of removed interfaces in abidiff's sections)",
